@@ -204,7 +204,7 @@ func c42Cluster(t *rapid.T, o c42Opts) *kafscalev1alpha1.KafscaleCluster {
 	b.AdvertisedPort = c42I32(t, "advPort", 0, 9092, 19092, 443)
 	b.Resources.Requests = c42Resources(t, "req")
 	b.Resources.Limits = c42Resources(t, "lim")
-	b.Service.Type = rapid.SampledFrom([]string{"", "", "ClusterIP", "LoadBalancer", "NodePort", "bogus", " LoadBalancer "}).Draw(t, "svcType")
+	b.Service.Type = rapid.SampledFrom([]string{"", "", "ClusterIP", "LoadBalancer", "NodePort", "NodePort", " NodePort ", "bogus", " LoadBalancer "}).Draw(t, "svcType")
 	b.Service.Annotations = c42StrMap(t, "svcAnn")
 	b.Service.LoadBalancerIP = rapid.SampledFrom([]string{"", "", "203.0.113.10", " 203.0.113.11 "}).Draw(t, "lbIP")
 	if rapid.IntRange(0, 3).Draw(t, "lbRanges") == 2 {
